@@ -940,7 +940,8 @@ func c10checkDate(r *Run, out, value string, d1904 bool, tpl c10dt, rep, via str
 	if !fl.IsInt64() || nr.Int64() >= maxDay*86400 {
 		return
 	}
-	if !d1904 && fl.Int64() < 61*86400 {
+	if elapsedKind := tpl.kind == "eh" || tpl.kind == "em" || tpl.kind == "es"; !elapsedKind && !d1904 && fl.Int64() < 61*86400 {
+		// (elapsed forms do not depend on the calendar: they are checked from serial 0 on)
 		r.Stat("date:before-1900-03-01-skipped")
 		return
 	}
@@ -1596,6 +1597,49 @@ func runC10(r *Run, rng *Rng, replay string) {
 		}
 		c10dateCase(r, fmt.Sprintf("%d.%s", day, frac), rng.Chance(30), c10dtCodes[rng.Intn(len(c10dtCodes))])
 	}
+	// 6a. elapsed forms at the day boundary: serials within half a second below a whole day; the elapsed
+	// counts must agree with the clock of the SAME rounded instant
+	for _, v := range []string{"0.999999", "2.9999999", "45000.9999999", "0.99999", "61.99999999", "1462.9999995", "0.5", "1.25", "45000.75", "109999.9999999"} {
+		for _, d1904 := range []bool{false, true} {
+			for _, ti := range []int{6, 7, 8} {
+				c10dateCase(r, v, d1904, c10dtCodes[ti])
+			}
+			c10elapsedConsistency(r, v, d1904)
+		}
+	}
+	for i := 0; i < 60*scale; i++ {
+		day := rng.Pick2([]int{0, 1, 2, 59, 60, 61, 62, 1462, 45000, 106751, 106752, rng.Range(0, 2900000)})
+		v := fmt.Sprintf("%d.%s", day, rng.Pick([]string{"9999999", "99999999", "999995", "9999942", "9999943", "99999421", "999994", "5", "0", "499999", fmt.Sprintf("%06d", rng.Intn(1000000))}))
+		d1904 := rng.Chance(40)
+		c10dateCase(r, v, d1904, c10dtCodes[rng.Pick2([]int{6, 7, 8})])
+		c10elapsedConsistency(r, v, d1904)
+	}
+	// 6a'. big-number path: more than 15 plain-decimal digits, the cut falls on a 5 that follows an even digit
+	// and is followed by non-zero digits (a tie-to-even shortcut would round down here)
+	for _, c := range [][2]string{{"0.00123456789012251", "0.000000000000000"}, {"1.23456789012251E-10", "0.00000000000000000000000"},
+		{"0.00123456789012250", "0.000000000000000"}, {"0.0012345678901235", "0.000000000000000"}, {"0.00123456789012351", "0.000000000000000"}} {
+		c10fmt(r, c10mk(true, false, c[0], c[1], nil))
+	}
+	for i := 0; i < 80*scale; i++ {
+		z := rng.Range(2, 9)
+		sig := strconv.Itoa(rng.Range(1, 9))
+		for k := 0; k < 11; k++ {
+			sig += strconv.Itoa(rng.Intn(10))
+		}
+		sig += strconv.Itoa(2*rng.Intn(5)) + "5" + strconv.Itoa(rng.Range(1, 9)) // even digit, 5, non-zero tail
+		if rng.Chance(25) {
+			sig = sig[:12] + strconv.Itoa(2*rng.Intn(5)+1) + "5" + strconv.Itoa(rng.Intn(10)) // odd digit before the 5
+		}
+		v := "0." + strings.Repeat("0", z) + sig
+		code := "0." + strings.Repeat("0", z+13)
+		if rng.Chance(20) {
+			code = "#,##0." + strings.Repeat("0", z+13)
+		}
+		if rng.Chance(30) {
+			v = "-" + v
+		}
+		c10fmt(r, c10mk(true, false, v, code, nil))
+	}
 	// 6b. options layer: both date systems x long-date / long-time / short patterns x system tags
 	c10optDate(r, "43543.50320601852", true, 0, "longdate", 0)
 	c10optDate(r, "43543.50320601852", true, 0, "longdate", 1)
@@ -1743,6 +1787,8 @@ func c10replay(r *Run, path string) {
 				customs = append(customs, [2]string{w[k], unhx(w[k+1])})
 			}
 			c10glue(r, w[1] == "1", w[2] == "1", atoi(w[3]), &c10o{atoi(w[4]), unhx(w[5]), unhx(w[6]), unhx(w[7])}, unhx(w[8]), customs)
+		case w[0] == "elapsed" && len(w) == 3:
+			c10elapsedConsistency(r, unhx(w[2]), w[1] == "1")
 		case w[0] == "frac" && len(w) == 4:
 			c10fraction(r, unhx(w[1]), atoi(w[2]), w[3] == "1")
 		case w[0] == "norm" && len(w) == 2:
@@ -2336,4 +2382,60 @@ func c10fraction(r *Run, value string, k int, mixed bool) {
 	} else {
 		r.Stat("fraction-ok")
 	}
+}
+
+// c10elapsedConsistency: [h]:mm:ss, [m]:ss and [s] must denote the instant the 24-hour rendering of the
+// same value shows: elapsed hours = 24 * (days between the rendered date and serial 0) + rendered hour.
+func c10elapsedConsistency(r *Run, value string, d1904 bool) {
+	rep := fmt.Sprintf("elapsed %s %s", b01(d1904), hx(value))
+	f := func(code string) (string, bool) {
+		res := c10guard(func() string { return xl.VerifC10Format(value, code, d1904, xl.CellTypeNumber, nil) })
+		return res.s, res.panic == "" && !res.hang
+	}
+	r.Case(rep, true)
+	clock, ok1 := f("yyyy-mm-dd hh:mm:ss")
+	eh, ok2 := f("[h]:mm:ss")
+	em, ok3 := f("[m]:ss")
+	es, ok4 := f("[s]")
+	if !(ok1 && ok2 && ok3 && ok4) || clock == value {
+		return
+	}
+	m := regexp.MustCompile(`^(\d+)-(\d\d)-(\d\d) (\d\d):(\d\d):(\d\d)$`).FindStringSubmatch(clock)
+	if m == nil {
+		return
+	}
+	base := c10epoch
+	if d1904 {
+		base = c10epoch1904
+	}
+	date := time.Date(atoi(m[1]), time.Month(atoi(m[2])), atoi(m[3]), 0, 0, 0, 0, time.UTC)
+	days := int64(date.Sub(base).Hours()+0.5) / 24
+	if atoi(m[1]) > 2150 {
+		days = (date.Unix() - base.Unix()) / 86400
+	}
+	if !d1904 && days < 61 {
+		// 1900 system before 1900-03-01: the rendered calendar date is one day behind the serial's day count
+		// (Excel's fictitious 1900-02-29); the day count of the serial itself is used
+		if x, ok := c10exact(value); ok {
+			q := new(big.Int).Quo(x.Num(), x.Denom()).Int64()
+			if atoi(m[4]) == 0 && atoi(m[5]) == 0 && atoi(m[6]) == 0 {
+				// a carry to the next midnight is part of the rounded instant
+				nr := new(big.Rat).Mul(x, big.NewRat(86400, 1))
+				n := new(big.Int).Quo(new(big.Int).Add(new(big.Int).Mul(nr.Num(), big.NewInt(2)), nr.Denom()), new(big.Int).Mul(nr.Denom(), big.NewInt(2))).Int64()
+				q = n / 86400
+			}
+			days = q
+		}
+	}
+	hh, mi, ss := int64(atoi(m[4])), int64(atoi(m[5])), int64(atoi(m[6]))
+	wantH := days*24 + hh
+	want := []string{fmt.Sprintf("%d:%02d:%02d", wantH, mi, ss), fmt.Sprintf("%d:%02d", wantH*60+mi, ss), fmt.Sprintf("%d", (wantH*60+mi)*60+ss)}
+	got := []string{eh, em, es}
+	for i, code := range []string{"[h]:mm:ss", "[m]:ss", "[s]"} {
+		if got[i] != want[i] {
+			r.Fail("date:elapsed:inconsistent-with-clock", fmt.Sprintf("format(%q, %q) date1904=%v = %q, but the same value renders %q as yyyy-mm-dd hh:mm:ss: the elapsed form of that instant is %q", value, code, d1904, got[i], clock, want[i]), 0, rep)
+			return
+		}
+	}
+	r.Stat("elapsed-consistent")
 }
